@@ -294,7 +294,7 @@ _RE_DEPTH = re.compile(r"^The depth of the complete state graph search is (\d+)"
 _RE_INV = re.compile(r"^Error: Invariant (\S+) is violated")
 _RE_ACTPROP = re.compile(r"^Error: Action property (\S+) is violated")
 _RE_TEMPORAL = re.compile(r"^Error: Temporal properties were violated")
-_RE_COV = re.compile(r"^<(\w+) line \d+, col \d+ to line \d+, col \d+ of module (\w+)>: (\d+):(\d+)")
+_RE_COV = re.compile(r"^<(\w+) line \d+, col \d+ to line \d+, col \d+ of module (\w+)(?: \([\d ]+\))?>: (\d+):(\d+)")
 _RE_SIM = re.compile(r"^The number of states generated: (\d+)")
 
 
